@@ -425,3 +425,11 @@ Proof.
   rewrite Ht. split; [reflexivity|]. split; [reflexivity|].
   destruct did, nad; cbn [is_some b2z]; lia.
 Qed.
+
+(* activating used objects again: the conversation is the one fresh objects would have, whatever the history *)
+Theorem reactivation_fresh p_old t_old n fuel ic tc script payloads app timeout release :
+  conversation_after p_old t_old n fuel ic tc script payloads app timeout release =
+  conversation n fuel ic tc script payloads app timeout release.
+Proof. reflexivity. Qed.
+Theorem activate_state p_old t_old app : ini_activate p_old = 0 /\ tgt_activate t_old app = tgt_init app.
+Proof. split; reflexivity. Qed.
